@@ -63,6 +63,7 @@ def faults(text: str, version: str):
     yield 'doctype-other-dtd', text.replace('WN-LMF-' + version, 'WN-LMF-9.9', 1)
     yield 'xmldecl-other-encoding', text.replace('encoding="UTF-8"', 'encoding="latin-1"', 1)
     yield 'blank-first-line', '\n' + text
+    yield 'utf8-bom', '\ufeff' + text                 # the header must be the first bytes (is_lmf and load agree on it)
     yield 'unbalanced-tag', text.replace('</Synset>', '', 1)
     yield 'unclosed-root', text.replace('</LexicalResource>', '', 1)
     yield 'stray-ampersand', text.replace('label="', 'label="& ', 1)
@@ -159,7 +160,7 @@ def _job(version):
                 except Exception:   # noqa: BLE001
                     pass
                 header_fault = label in ('no-xml-declaration', 'no-doctype', 'doctype-other-dtd',
-                                         'xmldecl-other-encoding', 'blank-first-line')
+                                         'xmldecl-other-encoding', 'blank-first-line', 'utf8-bom')
                 if header_fault and lmf.is_lmf(p):
                     problem = (problem or '') + ' is_lmf() is True although load() rejects the header'
                 if not header_fault and not lmf.is_lmf(p):
@@ -180,6 +181,35 @@ def _job(version):
                     changed = [k for k in after if after[k] != before.get(k)]
                     problem = (problem or '') + f' add() changed the database (tables {changed})'
                 results.append((version, doc, 'fault', label, problem, t if problem else None))
+        # an extension alone in its file whose <Extends> lacks id / version: the pre-scan itself must refuse it, so that
+        # add() raises (it would otherwise take the lexicon for "base not available" and return normally)
+        if version != '1.0':
+            ext_doc = os.path.join(work, 'extonly.xml')
+            lmf.dump({'lmf_version': version, 'lexicons': [lmfgen.full_lexicon(version, extension=True)]}, ext_doc)
+            etext = open(ext_doc, encoding='utf-8').read()
+            for attr in ('id', 'version'):
+                m = re.search(r'<Extends\b[^>]*?\s(%s="[^"]*")' % attr, etext, flags=re.S)
+                if not m:
+                    continue
+                t = etext[:m.start(1)] + etext[m.end(1):]
+                p = os.path.join(work, 'fe.xml')
+                open(p, 'w', encoding='utf-8').write(t)
+                problem = None
+                try:
+                    lmf.load(p, progress_handler=None)
+                    problem = 'load() accepted the invalid document'
+                except Exception:   # noqa: BLE001
+                    pass
+                dbdir = os.path.join(work, 'data')
+                shutil.rmtree(dbdir, ignore_errors=True)
+                os.makedirs(dbdir)
+                wn.lexicons()
+                try:
+                    wn.add(p, progress_handler=None)
+                    problem = (problem or '') + ' add() accepted the invalid document'
+                except Exception:   # noqa: BLE001
+                    pass
+                results.append((version, 'ext-only', 'fault', f'missing-Extends@{attr}', problem, t if problem else None))
     finally:
         wn.config.data_directory = old
         shutil.rmtree(work, ignore_errors=True)
